@@ -46,6 +46,7 @@ fn build_suite(name: &str, params: &Value) -> Box<dyn Suite + Send + Sync> {
                     directives: o["directives"].as_bool().unwrap_or(false),
                     regions: o["regions"].as_bool().unwrap_or(false),
                     tight: o["tight"].as_bool().unwrap_or(false),
+                    cr_comments: o["cr_comments"].as_bool().unwrap_or(false),
                     spacing_mode: o["mode"].as_u64().unwrap_or(1) as u32,
                 })
             }).collect();
